@@ -19,11 +19,11 @@ def _tables():
     return {(c["fn"], c["N"]): c for c in r.printed}
 
 
-def check_pipeline(op, c, tables, rng, keyprefix=""):
+def check_pipeline(op, c, tables, rng, keyprefix="", phys_list=None):
     bad = []
     N, prop = c["N"], c["prop"]
     ncmp = 0
-    for phys in PI.PHYS:
+    for phys in (phys_list or PI.PHYS):
         lam, d1, z0 = phys
         d_out = abs(PI.spacing(c["sp"], N, phys))
         outs = {}
@@ -88,6 +88,25 @@ def direct_laws(op, rng, n_sets):
             if not np.allclose(comb, out + 1j * np.asarray(f(V.copy())), rtol=0, atol=1e-8 * np.abs(out).max()):
                 bad.append(("%s:not-linear" % name, dict(N=N, lam=lam, d1=d1, z=z, m=m)))
                 return bad, done
+    # the same geometry at a sequence of nearby wavelengths / distances in one process (each call must stand on its own)
+    N, d1 = 8, 0.01
+    U = rng.standard_normal((N, N)) + 1j * rng.standard_normal((N, N))
+    p_in = (np.abs(U) ** 2).sum() * d1 ** 2
+    for lam in (600e-9, 750e-9, 900e-9, 1.25e-6, 1.45e-6, 600e-9):
+        for z in (1000.0, 1000.0004, -1000.0):
+            for name, f, dout in (("angularSpectrum", lambda W: op.angularSpectrum(W, lam, d1, 2 * d1, z), 2 * d1),
+                                  ("twoStepFresnel", lambda W: op.twoStepFresnel(W, lam, d1, 2 * d1, z), 2 * d1),
+                                  ("oneStepFresnel", lambda W: op.oneStepFresnel(W, lam, d1, z), abs(lam * z / (N * d1))),
+                                  ("lensAgainst", lambda W: op.lensAgainst(W, lam, d1, abs(z)), abs(lam * z / (N * d1)))):
+                out = np.asarray(f(U.copy()))
+                done += 1
+                p_out = (np.abs(out) ** 2).sum() * dout ** 2
+                if abs(p_out - p_in) > 1e-8 * p_in:
+                    bad.append(("%s:power-not-conserved:parameter-sequence" % name, dict(lam=lam, z=z, ratio=float(p_out / p_in))))
+                    return bad, done
+                if not np.allclose(np.asarray(f((1j) * U)), 1j * out, rtol=0, atol=1e-9 * np.abs(out).max()):
+                    bad.append(("%s:not-linear:complex-coefficient" % name, dict(lam=lam, z=z)))
+                    return bad, done
     return bad, done
 
 
@@ -100,14 +119,15 @@ def run(run):
     if r.violated:
         raise core.MachineryError("Propagation.tla violates its own invariant %s" % r.violated)
     tables = _tables()
-    run.bounds = dict(cfg=cfg, text=(core.SPEC / cfg).read_text(), physical_sets=PI.PHYS)
+    run.bounds = dict(cfg=cfg, text=(core.SPEC / cfg).read_text(), physical_sets=PI.phys_sets(run.tier, np.random.default_rng(run.seed)))
     rng = np.random.default_rng(run.seed)
     warnings.simplefilter("ignore")
     pipes = [c for c in r.printed if c["kind"] == "pipeline"]
+    phys_list = PI.phys_sets(run.tier, rng)
     total = 0
     with np.errstate(all="ignore"):
         for c in pipes:
-            bad, n = check_pipeline(op, c, tables, rng)
+            bad, n = check_pipeline(op, c, tables, rng, phys_list=phys_list)
             total += n
             for key, detail in bad:
                 run.violation(key, detail, dict(c, kind="pipeline"))
